@@ -365,7 +365,42 @@ def run_history(case):
             "outcome": "hist-ok" if not fails else "hist-FAIL", "fails": fails}
 
 
+def emit_rules(first):
+    """Fresh-process probe: use one of the key-sorting classes FIRST, then encode every rule with <= 1 optional part and
+    print a digest: the encoded rule texts must not depend on which class sorted its keys first in the process."""
+    import hashlib
+    from icalendar.caselessdict import CaselessDict
+    from icalendar.cal import Component, Calendar
+    from icalendar.parser import Parameters
+    if first == "caselessdict":
+        CaselessDict(b=1, a=2).sorted_keys()
+        CaselessDict(b=1, a=2).sorted_items()
+    elif first == "component":
+        c = Component()
+        c.name = "X-GEN"
+        c.add("z", "1")
+        c.to_ical()
+    elif first == "parameters":
+        Parameters({"x-b": "1", "a": "2"}).to_ical()
+    elif first == "calendar":
+        c = Calendar()
+        c.add("version", "2.0")
+        c.to_ical()
+    h = hashlib.sha256()
+    names = list(PARTS)
+    n = 0
+    for freq in FREQS:
+        for combo in [()] + [(p,) for p in names]:
+            for idx in itertools.product(*[range(len(PARTS[p])) for p in combo]):
+                r, _ = build(("r", "kw", freq, tuple(zip(combo, idx)), False, False))
+                h.update(r.to_ical() + b"\n")
+                n += 1
+    print(h.hexdigest(), n)
+
+
 def replay(case):
+    if case[0] == "first-class":
+        return {"fails": [], "note": "run: python -c 'from mc.checks import c19; c19.emit_rules(<class>)' in fresh processes and compare"}
     return run_history(case) if case[0] == "h" else run_case(case)
 
 
@@ -411,3 +446,25 @@ def run(ctx):
                                     yield ("h", path, freq, parts, m, between)
 
     ctx.explore("decode-histories", gen_hist, run_history)
+    # process history: which key-sorting class is used first in a fresh process must not matter
+    import os
+    import subprocess
+    import sys
+    digests = {}
+    for first in ("recur", "caselessdict", "component", "parameters", "calendar"):
+        p = subprocess.run([sys.executable, "-c", f"from mc.checks import c19; c19.emit_rules({first!r})"],
+                           cwd=os.path.dirname(os.path.dirname(os.path.dirname(os.path.abspath(__file__)))),
+                           env=dict(os.environ, PYTHONHASHSEED="0"), capture_output=True, text=True)
+        if p.returncode != 0:
+            from mc.core import HarnessError
+            raise HarnessError(f"probe process failed: {p.stderr[-400:]}")
+        digests[first] = p.stdout.split()[0]
+        nrules = int(p.stdout.split()[1])
+    distinct = sorted(set(digests.values()))
+    ctx.part("first-class-used", processes=len(digests), rules_each=nrules, distinct_digests=len(distinct))
+    res = {"n": len(digests) * nrules, "state": ("first-class", tuple(distinct)), "trans": len(digests) * nrules, "traces": len(digests),
+           "nontrivial": True, "outcome": "first-class-ok" if len(distinct) == 1 else "FAIL", "fails": []}
+    if len(distinct) != 1:
+        res["fails"].append(fail("encoded-rules-depend-on-which-class-sorted-first", ("first-class", tuple(sorted(digests.items()))),
+                                 "one digest", digests))
+    ctx.absorb("first-class-used", ("first-class", len(digests)), res)
